@@ -121,11 +121,20 @@ func MoreFuel(n int)               {}
 // other (growth ratios).
 func Cost(f func()) int {
 	var m0, m1 runtime.MemStats
+	t0 := ticks
 	runtime.ReadMemStats(&m0)
 	f()
 	runtime.ReadMemStats(&m1)
-	return int(m1.Mallocs - m0.Mallocs)
+	return int(m1.Mallocs-m0.Mallocs) + 200*(ticks-t0)
 }
+
+var ticks int
+
+// Tick is called by harness-defined host functions: natively it counts their
+// invocations into Cost (work that is re-done without allocating anything
+// would otherwise be invisible to the native cost measure); under the engine
+// it is an ordinary (cheap) call.
+func Tick() { ticks++ }
 func ConcreteInt(v, lo, hi int) int { return v }
 func Logf(format string, a ...interface{}) {
 	fmt.Printf("  [harness] "+format+"\n", a...)
